@@ -200,7 +200,8 @@ def check_bounded(ctx: Ctx, rule: str, fn: FunctionInfo, integer: bool) -> None:
 def rule_r1_r2(ctx: Ctx) -> None:
     prog = ctx.prog
     ri = prog.implementations(RANDOM_SOURCE, "randint")
-    ctx.floor("C18.R1", len(ri), 4, "randint implementations")
+    concrete = [c for c in prog.subclasses(RANDOM_SOURCE) if (m := prog.lookup_method(c, "randint")) is not None and m in ri]
+    ctx.floor("C18.R1", len(concrete), 4, "random source classes with a concrete randint (own or inherited)")
     for f in ri:
         check_bounded(ctx, "C18.R1", f, integer=True)
     di = prog.implementations(DECIDER, "random_int")
@@ -208,7 +209,8 @@ def rule_r1_r2(ctx: Ctx) -> None:
     for f in di:
         check_bounded(ctx, "C18.R1", f, integer=True)
     rf = prog.implementations(RANDOM_SOURCE, "random_float")
-    ctx.floor("C18.R2", len(rf), 4, "random_float implementations")
+    concrete_f = [c for c in prog.subclasses(RANDOM_SOURCE) if (m := prog.lookup_method(c, "random_float")) is not None and m in rf]
+    ctx.floor("C18.R2", len(concrete_f), 4, "random source classes with a concrete random_float (own or inherited)")
     for f in rf:
         check_bounded(ctx, "C18.R2", f, integer=False)
 
